@@ -159,7 +159,7 @@ def variants_layer(ctx, n=2):
             msa, _ = vcommon.build_msa(rng, ref_row, rows, refpos=rng.choice(["first", "middle"]), style="plain")
             mp = L.W("m%d.fasta" % k, msa)
             for suffix in ("gb", "gff"):
-                annob = anno.render_genbank(genome, feats, rng) if suffix == "gb" else anno.render_gff(genome, feats)
+                annob = anno.render_genbank(genome, feats, rng) if suffix == "gb" else anno.render_gff(genome, feats, mix=rng)
                 ap = L.W("a%d.%s" % (k, suffix), annob)
                 for append in (False, True):
                     s, e = rng.choice([(-1, -1), (1, -1), (-1, len(genome) // 2), (2, len(genome) - 1)])
@@ -238,7 +238,7 @@ def sam_layer(ctx, which, n=2):
                         return L.runs
             else:
                 suffix = rng.choice(["gb", "gff"])
-                annob = anno.render_genbank(genome, feats, rng) if suffix == "gb" else anno.render_gff(genome, feats)
+                annob = anno.render_genbank(genome, feats, rng) if suffix == "gb" else anno.render_gff(genome, feats, mix=rng)
                 ap = L.W("a%d.%s" % (k, suffix), annob)
                 for append in (False, True):
                     s, e = rng.choice([(-1, -1), (1, -1), (-1, Lg // 2), (2, Lg - 1)])
